@@ -2113,6 +2113,11 @@ class _GroupElem(ABC):
             error_e = np.abs(1 - diff_e)  # a perfect element has an error max <= 1e-12
             # A distorted element exhibits a maximum error greater than zero.
             useIterative_e = error_e > 1e-12
+            # the determinant alone can coincide at the integration points of a map that is not
+            # affine (a twisted hexahedron): the Jacobian matrix itself must be the same everywhere
+            F_e_pg = np.asarray(self.Get_F_e_pg(matrixType))
+            diffF_e = np.abs(F_e_pg - F_e_pg[:, :1]).max(axis=(1, 2, 3))
+            useIterative_e |= diffF_e > 1e-12 * np.abs(F_e_pg[:, 0]).max(axis=(1, 2))
         else:
             coordInElem_n = None
 
